@@ -634,6 +634,19 @@ func (c *fctx) loopEnv(fr *frame, li *loopInfo, st *state, phiOverride map[ssa.V
 		if _, ok := e.vars[n]; ok {
 			continue
 		}
+		if strings.HasPrefix(n, "&") {
+			// the address of a local that lives in a cell: the dominating ssa.Alloc named after it
+			for b := li.header.Idom(); b != nil; b = b.Idom() {
+				for _, in := range b.Instrs {
+					if al, ok := in.(*ssa.Alloc); ok && al.Comment == n[1:] {
+						if v, ok := fr.vals[al]; ok && v.a == nil {
+							e.vars[n] = sval{t: c.termOf(v, "address of local"), sort: c.S.SortOf(al.Type()), gt: al.Type()}
+						}
+					}
+				}
+			}
+			continue
+		}
 		v, t, ok := c.lookupVar(fr, n, li.header, phiOverride)
 		if !ok {
 			continue
@@ -816,7 +829,26 @@ func (p *Prog) VerifyFunc(fn *ssa.Function) *FuncVC {
 			if en.Label != "" {
 				lbl = en.Label
 			}
-			c.addObl(&Obligation{Name: fmt.Sprintf("ensures#%s@ret%d", lbl, ri), Kind: "ensures", Tags: en.Tags, Guard: r.cond, Goal: g.t, Clause: en.Src, Pos: c.pos(r.pos), SrcLine: c.P.SrcLine(r.pos)})
+			var extra []string
+			for _, u := range en.Uses {
+				if strings.Contains(u, ".") {
+					if fs, ok := c.quiet[u]; ok {
+						extra = append(extra, fs...)
+					}
+					continue
+				}
+				if lm := c.P.Lemmas[u]; lm != nil {
+					extra = append(extra, c.lemmaFormula(lm))
+					if lm.Axiom {
+						c.used["axiom:"+u] = true
+					} else {
+						c.used["lemma:"+u] = true
+					}
+				} else {
+					c.errorf("unknown lemma %s", u)
+				}
+			}
+			c.addObl(&Obligation{Name: fmt.Sprintf("ensures#%s@ret%d", lbl, ri), Kind: "ensures", Tags: en.Tags, Guard: r.cond, Goal: g.t, Clause: en.Src, Pos: c.pos(r.pos), SrcLine: c.P.SrcLine(r.pos), Extra: extra})
 		}
 	}
 	// per-return canaries (thorough tier; diagnostic): a return that is unreachable under the accumulated assumptions is either
@@ -999,6 +1031,18 @@ func (p *Prog) VerifyLemma(lm *spec.Lemma) *FuncVC {
 		m1 := he.tr(lm.Induction).t
 		body := he.tr(lm.Body).t
 		c.assume(fmt.Sprintf("(forall (%s) (=> (and (<= 0 %s) (< %s %s)) %s))", strings.Join(bs, " "), m1, m1, m0, body))
+		// when the measure is one of the parameters, also state the instance "same arguments, measure minus one" outright
+		// (the quantified hypothesis has no pattern and solvers often do not find this instance by themselves)
+		if id, ok := lm.Induction.(*spec.Ident); ok {
+			if v, isP := e.vars[id.Name]; isP && v.sort == "Int" {
+				pe := &env{c: c, vars: map[string]sval{}, file: file, pkg: e.pkg}
+				for k, x := range e.vars {
+					pe.vars[k] = x
+				}
+				pe.vars[id.Name] = sval{t: fmt.Sprintf("(- %s 1)", v.t), sort: "Int", gt: v.gt}
+				c.assume(fmt.Sprintf("(=> (<= 1 %s) %s)", v.t, pe.tr(lm.Body).t))
+			}
+		}
 	}
 	g := e.tr(lm.Body)
 	name := "lemma:" + lm.Name
@@ -1037,6 +1081,11 @@ func (o *Obligation) Query(prelude string) string {
 		b.WriteString("\n")
 	}
 	for _, a := range c.assumes[:o.nAssume] {
+		b.WriteString("(assert ")
+		b.WriteString(a)
+		b.WriteString(")\n")
+	}
+	for _, a := range o.Extra {
 		b.WriteString("(assert ")
 		b.WriteString(a)
 		b.WriteString(")\n")
